@@ -63,11 +63,11 @@ SERVER_RULE = ('sequential server histories under testing/synctest: 1-5 clients 
 SERVER_TRUSTED = ['lib/server/{run,netio,utils}.go and lib/server/replies are modelled by hand in coq/model/Server.v over the reference table of C11',
                   'testing/synctest virtual clock; in-memory sockets (lib/rsocks/vnet_verif.go) instead of AF_PACKET; ARP responders simulated by the harness',
                   'handlers run one at a time in these histories (the harness waits for quiescence); interleavings are covered by the theorems, not by the runs']
-_SRV_DEBUG = dict(tests=['TestServerHistories'], monitor_tags=set(), panic_is_violation=set(), rule=SERVER_RULE, trusted=SERVER_TRUSTED, timeout={'quick': 900, 'thorough': 14000})
+_SRV_DEBUG = dict(tests=['TestServerHistories'], monitor_tags=set(), panic_is_violation=set(), rule=SERVER_RULE, trusted=SERVER_TRUSTED, timeout={'quick': 600, 'thorough': 2400})
 
 def _srv(mon, extra_tests=(), **kw):
     d = dict(tests=['TestServerHistories', 'TestServerStories'] + list(extra_tests), monitor_tags={mon}, panic_is_violation=set(), rule=SERVER_RULE,
-             trusted=list(SERVER_TRUSTED), timeout={'quick': 900, 'thorough': 14000}, env={'VERIF_MONITORS': str(mon)},
+             trusted=list(SERVER_TRUSTED), timeout={'quick': 600, 'thorough': 2400}, env={'VERIF_MONITORS': str(mon)},
              assumptions=['each exported *IPDB method is one atomic step (gofacts: gf_ipdb_methods_locked)', 'virtual time stands for wall-clock time'])
     d.update(kw)
     return d
@@ -164,7 +164,7 @@ PROPS['C06']['tests'] = PROPS['C06']['tests'] + ['TestC09NoAlias']
 PROPS['C07']['tests'] = PROPS['C07']['tests'] + ['TestServerHistories']
 PROPS['C07']['env'] = {'VERIF_MONITORS': '207'}
 PROPS['C07']['monitor_tags'] = PROPS['C07']['monitor_tags'] | {207}
-PROPS['C07'].setdefault('timeout', {'quick': 900, 'thorough': 14000})
+PROPS['C07'].setdefault('timeout', {'quick': 600, 'thorough': 2400})
 
 PROPS['C14'] = dict(
     tests=['TestC14'],
@@ -215,7 +215,7 @@ PROPS['C15'] = dict(
              'the harness decides outcomes lazily when it observes the client entering a state (first frame of an exchange, ARP probe, SetIface/Up call); '
              'libif, ifmon and rsocks are the verif-tag fakes; timers are the synctest virtual clock (real timer drift, the 17 s re-poll of hackAbsoluteSleep '
              'and the run time of the hook script are not exhibited)'],
-    timeout={'quick': 900, 'thorough': 14000})
+    timeout={'quick': 600, 'thorough': 2400})
 PROPS['C20'] = dict(
     tests=['TestC20'],
     # checks of coq/spec/SpecFs.v (proved to accept every reachable state of the model: C20_checks_accept_reachable)
